@@ -41,16 +41,24 @@ ASSUMPTIONS = [
     "journal row under the next outbound number - C05's invariant); dead_peer_disconnected and both liveness "
     "theorems need no such assumption (a failed send still records the id / is swallowed)",
     "application hooks (on_state_change, on_disconnect, on_message) return normally",
+    "the heartbeat interval is the constructor's heartbeat_period, an integer number of seconds in the model and the "
+    "theorems (every h >= 1); the library never adopts the HeartBtInt(108) of the peer's Logon (an acceptor echoes it "
+    "back but watches with its own configured period) - a deviation from FIX noted in the report, not a C12 violation; "
+    "non-integer periods (1.5, 2.5, 7.25 s) are covered by the implementation-only oracle",
 ]
 MODELLED_NOT_VERIFIED = [
     "C12: the session model (lean/AsyncFix/Model/Session*.lean) is hand-written from asyncfix/connection.py and tied to "
     "it by the step-by-step scenario comparison of this check plus the single-step table of the session family",
     "C12: which thread of control runs when (timer task vs. reader task) is not modelled beyond atomic events; "
     "suspension inside send_msg (drain) is the subject of C14",
+    "C12: the model takes DECODED frames; reassembly of frames from socket reads (Codec.decode on a growing buffer, "
+    "C03's subject) is outside the theorems and is tied in by the byte transport of this check: a fifth of the scenarios "
+    "feed the frames' bytes through the real socket_read_task in reads of at most 4096 / 1500 / 700 bytes, with "
+    "application frames of 100 B .. 70 KiB, against an independent framing on the harness side",
 ]
 
 T0 = S.T0
-HS = [1, 2, 3, 5, 30]
+HS = [1, 2, 3, 5, 30, 60, 3600]   # 60 / 3600: coarse tick grids (8 ticks per interval)
 WRONG_TEXT = "Invalid TestRequest(TestReqID) received"
 
 
@@ -61,7 +69,7 @@ def make_spec(h, peer, gaps, phase, t0_off=0, tie="tick", role=1, counters=(5, 7
     """gaps: list of tick-to-tick distances in ms, cycled; phase: first tick at t0 + phase."""
     delta = max(max(gaps), phase)
     if horizon is None:
-        horizon = (3 * h + 2) * 1000 + 3 * delta
+        horizon = int((3 * h + 2) * 1000) + 3 * delta
     return {"h": h, "peer": peer, "gaps": list(gaps), "phase": phase, "t0_off": t0_off, "tie": tie,
             "role": role, "counters": list(counters), "journal": journal, "horizon": horizon}
 
@@ -104,6 +112,7 @@ class Peer:
         self.sent = {}                           # seq -> (mtype, body) of what the peer has sent / lost
         self.last = None
         self.horizon = t0 + spec["horizon"]
+        self.pads, self.npad = p.get("pads"), 0   # sizes of the Text(58) of the application frames, cycled
         k = p["kind"]
         if k == "periodic":
             t, i, nums = t0 + p["period"], 0, p.get("nums", ["new"])
@@ -165,6 +174,10 @@ class Peer:
             self._lose(int(num[4:]))
         seq = self.pseq
         self.pseq += 1
+        if self.pads and act["mtype"] == "D":
+            size = self.pads[self.npad % len(self.pads)]
+            self.npad += 1
+            act = dict(act, body=[f for f in act["body"] if f[0] != 58] + [(58, "p" * size)])
         self.sent[seq] = (act["mtype"], list(act["body"]))
         self.last = (seq, act["mtype"], list(act["body"]))
         return (act["mtype"], list(act["body"]), seq)
@@ -241,7 +254,68 @@ class Peer:
         return self.queue.pop(0)
 
 
+class _ByteLog(S._Log):
+    """logger for the byte mode: an exception logged by socket_read_task itself is one that ESCAPED
+    `_process_message` (the model's `raised`), everything else is a swallowed one (`caught`)"""
+
+    def exception(self, *a, **k):
+        import sys
+        kind = S.exc_kind(sys.exc_info()[0])
+        self.eff.append(("R" if sys._getframe(1).f_code.co_name == "socket_read_task" else "C", kind))
+
+
+def feed_bytes(impl, ev, chunk, pre, cur):
+    """byte mode: the frame of `ev` reaches the REAL socket_read_task as reads of at most `chunk` bytes (one task
+    iteration per read: read -> buffer -> Codec.decode -> _process_message).  Yields one time-line step per read:
+    kind "chunk" for a read that cannot complete the frame, "recv" (with the frame) for the one that does."""
+    now, (mtype, fields) = ev[1], ev[2]
+    raw = S.fields_to_bytes(fields)
+    c = impl.conn
+    parts = [raw[i:i + chunk] for i in range(0, len(raw), chunk)]
+    for i, part in enumerate(parts):
+        if c._socket_reader is None:
+            break
+        del impl.eff[:]
+        impl.now_ms, impl.declined = now, None
+        c._socket_reader = S._Reader([part])
+        try:
+            S.run_coro(c.socket_read_task())
+        except S._Done:
+            pass
+        if c._socket_reader is not None:
+            c._socket_reader = object()
+        eff, post = impl.effects(), impl.dump()
+        nxt = parse_post(post)
+        last = i == len(parts) - 1
+        yield {"t": now, "kind": "recv" if last else "chunk", "ev": ev if last else ("chunk", now, len(part)),
+               "pre": pre, "eff": eff, "post": post, "a_pre": cur, "a_post": nxt, "bytes": len(raw)}
+        pre, cur = post, nxt
+
+
 def run_scenario(impl: S.Impl, spec):
+    saved = impl.conn.log
+    if spec.get("bytes"):
+        impl.conn.log = _ByteLog(impl.eff)
+    try:
+        return _run_scenario(impl, spec)
+    finally:
+        impl.conn.log = saved
+
+
+def parse_post(post):
+    """S.parse_conn_tokens, tolerating a non-integer heartbeat period (oracle-only configurations)"""
+    t = post.split(" ")
+    try:
+        int(t[10])
+        return S.parse_conn_tokens(post)
+    except ValueError:
+        hb = float(t[10])
+        a = S.parse_conn_tokens(" ".join(t[:10] + ["0"] + t[11:]))
+        a.hb = hb
+        return a
+
+
+def _run_scenario(impl: S.Impl, spec):
     """run one scenario on the REAL connection.  Returns the time line: list of dicts
     {t, kind, ev, pre, eff, post, a_pre, a_post} (pre/post = canonical state tokens)."""
     h = spec["h"]
@@ -278,6 +352,20 @@ def run_scenario(impl: S.Impl, spec):
             mtype, body, seq = out
             ev = ("recv", now, S.inbound(cur, mtype, body, seq=seq, now_ms=now))
             kind = "recv"
+            if spec.get("bytes"):
+                if cur.sock:   # a closed transport delivers nothing
+                    for step in feed_bytes(impl, ev, spec["bytes"]["chunk"], pre, cur):
+                        line.append(step)
+                        for e in step["eff"]:
+                            if e.startswith("W="):
+                                mt, fs = S.parse_msg_tok(e[2:])
+                                peer.saw_frame(now, mt, fs)
+                        pre, cur = step["post"], step["a_post"]
+                if cur.state <= 3 or not cur.sock:
+                    after_down += 1
+                    if after_down > 2:
+                        break
+                continue
         else:
             now = next_tick
             if now > end:
@@ -289,7 +377,7 @@ def run_scenario(impl: S.Impl, spec):
         del impl.eff[:]
         impl.apply("all", ev)
         eff, post = impl.effects(), impl.dump()
-        nxt = S.parse_conn_tokens(post)
+        nxt = parse_post(post)
         line.append({"t": now, "kind": kind, "ev": ev, "pre": pre, "eff": eff, "post": post, "a_pre": cur, "a_post": nxt})
         for e in eff:
             if e.startswith("W="):
@@ -402,7 +490,7 @@ def all_specs(rng, n):
     specs = []
     for h in HS:
         for peer in peers_for(h):
-            for gaps in GRIDS:
+            for gaps in (GRIDS if h < 60 else [[125 * h], [125 * h, 250 * h], [1000 * h - 125]]):
                 step = gaps[0]
                 for phase in sorted({125, 500, step // 2 + 125 - (step // 2) % 125, step - 125, step}):
                     specs.append((h, peer, gaps, phase))
@@ -420,6 +508,17 @@ def all_specs(rng, n):
                              tie=rng.choice(["tick", "recv"]), role=rng.choice([1, 2]),
                              counters=rng.choice([(5, 7), (1, 1), (12, 4), (2**32 + 3, 2**33 + 1)]),
                              journal=rng.choice(["empty", "empty", "app", "sess"])))
+        # transport and size dimensions: every 5th scenario feeds BYTES through the real socket_read_task in reads of
+        # at most `chunk` bytes; application frames get Text(58) of 100 B .. 70 KiB (also with the decoded transport)
+        sends_app = peer.get("mtype") == "D" or peer["kind"] == "gap" or "D" in json.dumps(peer.get("extras", ""))
+        if i % 5 == 1:
+            out[-1]["bytes"] = {"chunk": rng.choice([4096, 4096, 1500, 700])}
+        if sends_app and h <= 5 and i % 5 in (1, 2):
+            # one or two large frames among small ones (every later step carries the journal: keep them few)
+            out[-1]["peer"] = dict(peer, pads=rng.choice([[100], [100, 4096, 100, 100, 100], [100, 10240, 100, 100, 100, 100],
+                                                            [9900, 100, 10100, 100, 100, 100], [100, 12000, 4000, 100, 100, 100]]))
+            if h <= 2 and i % 25 in (1, 2):
+                out[-1]["peer"]["pads"] = [100, 70000, 100, 100, 100, 100, 100, 100]
         if peer["kind"] in ("silent", "periodic", "burst") and not peer.get("answer") and i % 3 == 0:
             v = state_variants(rng, h)
             out[-1]["state"] = v["state"]
@@ -452,19 +551,37 @@ def correspondence(ctx):
     impl = S.Impl()
     drv = C.Driver()
     try:
-        specs = corpus_specs() + all_specs(ctx.rng, ctx.n(800, 10000))
+        specs = corpus_specs() + all_specs(ctx.rng, ctx.n(600, 10000))
         runs, lines, index = [], [], []
         for si, spec in enumerate(specs):
             line = run_scenario(impl, spec)
             runs.append((spec, line))
+            # stateful conversation per scenario (the pre-state is sent once: journals may hold 70 KiB frames)
+            if line:
+                lines.append("sess.load " + line[0]["pre"])
+                index.append(None)
             for k, s in enumerate(line):
-                lines.append(f"sess.step all {s['pre']} E {S.event_tokens(s['ev'])}")
+                if s["kind"] == "chunk":
+                    continue   # part of a frame: expected = nothing happens (checked below without the driver)
+                lines.append(f"sess.ev all {S.event_tokens(s['ev'])}")
                 index.append((si, k))
         model = drv.batch(lines) if lines else []
+        assert all(m == "ok" for m, ix in zip(model, index) if ix is None), "sess.load refused"
+        model = [m for m, ix in zip(model, index) if ix is not None]
+        index = [ix for ix in index if ix is not None]
+        nev = len(index)
+        nchunk = 0
+        for si, (spec, line) in enumerate(runs):
+            for k, s in enumerate(line):
+                if s["kind"] == "chunk":
+                    nchunk += 1
+                    index.append((si, k))
+                    model.append(S.reply([], s["pre"]))
     finally:
         impl.close()
     dis, bad = [], set()
-    dist = {"h": {}, "peer": {}, "outcome": {}, "event": {}, "effect": {}, "start_state": {}, "tick_in_state": {}}
+    dist = {"h": {}, "peer": {}, "outcome": {}, "event": {}, "effect": {}, "start_state": {}, "tick_in_state": {},
+            "transport": {}, "frame_bytes": {}}
 
     def inc(d, k):
         dist[d][k] = dist[d].get(k, 0) + 1
@@ -474,17 +591,22 @@ def correspondence(ctx):
         s = line[k]
         il = S.reply(s["eff"], s["post"])
         inc("event", s["kind"])
+        if s["kind"] == "recv":
+            n = s.get("bytes") or len(S.fields_to_bytes(s["ev"][2][1]))
+            inc("frame_bytes", "<256" if n < 256 else "<4096" if n < 4096 else "<9999" if n <= 9999 else "<65536" if n < 65536 else ">=65536")
         if s["kind"] == "tick":
             inc("tick_in_state", str(s["a_pre"].state))
         for e in s["eff"] or ["(none)"]:
             inc("effect", e.split("=")[0])
         if il != ml and si not in bad:
             bad.add(si)
-            dis.append({"input": {"scenario": spec, "step": k, "event": S.event_tokens(s["ev"]), "pre": s["pre"]},
+            dis.append({"input": {"scenario": spec, "step": k, "pre": s["pre"][:2000],
+                                  "event": S.event_tokens(s["ev"])[:2000] if s["kind"] != "chunk" else f"chunk {s['ev'][2]} bytes"},
                         "model": ml, "impl": il})
     for spec, line in runs:
         inc("h", str(spec["h"]))
         inc("start_state", str(spec.get("state", 17)))
+        inc("transport", f"bytes/{spec['bytes']['chunk']}" if spec.get("bytes") else "decoded")
         p = spec["peer"]
         inc("peer", p["kind"] + ("+answer:" + p["answer"].get("flavour", "right") if p.get("answer") else ""))
         inc("outcome", outcome(line))
@@ -494,9 +616,9 @@ def correspondence(ctx):
         samples.append({"scenario": spec, "timeline": [[s["t"] - T0, s["kind"], [e.split("=")[0] for e in s["eff"]]]
                                                        for s in line if s["eff"]][:12]})
     return {
-        "evaluations": len(lines),
-        "distinct_nontrivial": len(set(lines)),
-        "rule": "scenarios = corpus + stratified sample of {h in 1,2,3,5,30} x {arrival patterns: silent; periodic "
+        "evaluations": nev + nchunk,
+        "distinct_nontrivial": len({(s["pre"], S.event_tokens(s["ev"])) for _, l in runs for s in l if s["kind"] != "chunk"}),
+        "rule": "scenarios = corpus + stratified sample of {h in 1,2,3,5,30,60,3600} x {arrival patterns: silent; periodic "
                 "Heartbeat / application traffic below, at, above the interval, answering or not; bursts then silence; "
                 "echo delayed 0..2 intervals (+); wrong / missing / non-numeric TestReqID; peer probing us; a sequence gap "
                 "followed by the PossDup / GapFill replay at paces 0.4h..2.5h (RESENDREQ_AWAITING in between), the "
@@ -505,7 +627,9 @@ def correspondence(ctx):
                 "too high / PossDup duplicate = too low) for echoes, Heartbeats, TestRequests, application frames; "
                 "inbound ResendRequests (valid / for never-sent numbers), lost frames and stray frames as extra events on "
                 "quiet-but-responsive, chatty and silent peers; the peer keeps its own counter and serves our "
-                "ResendRequests by gap fill / replay / never} x {tick gap "
+                "ResendRequests by gap fill / replay / never} x {transport: decoded frames handed to "
+                "_process_message | bytes through the real socket_read_task in reads of <= 4096 / 1500 / 700 bytes} x "
+                "{application frame sizes 100 B .. 70 KiB} x {h also 60 and 3600 s on coarse tick grids} x {tick gap "
                 "patterns 1000..1875 ms} x {phase of the grid relative to the last frame} x {sub-second offset of t0, "
                 "tick-or-frame first on ties, role, counters, journal shape}; every event of every scenario is one "
                 "evaluation (real coroutine vs. model from the same pre-state, effects with SendingTime + full "
@@ -527,7 +651,7 @@ def frames(step):
 
 def judge(spec, line):
     """yield (signature, what, detail) for every clause of C12 the time line violates"""
-    h, H = spec["h"], spec["h"] * 1000
+    h, H = spec["h"], int(spec["h"] * 1000)
     delta = spec_delta(spec)
     t0 = T0 + spec["t0_off"]
     last_arrival = t0      # time of the last valid inbound frame (the scripted peer only sends valid ones)
@@ -547,6 +671,10 @@ def judge(spec, line):
                 yield ("C12-tick-after-disconnect", "the watchdog acts on a disconnected connection", {"step": k})
             continue
         disconnected = "CS" in eff or "DC" in eff
+        if s["kind"] == "chunk":
+            if eff:
+                yield ("C12-partial-frame-acted-on", "a read that cannot complete a frame had effects", {"step": k})
+            continue
         if s["kind"] == "tick":
             treqs = [f for f in fr if f[0] == "1"]
             if [f for f in fr if f[0] != "1"]:
@@ -668,6 +796,25 @@ def judge_all(runs, limit_per_sig=3):
     return failures, per
 
 
+def config_specs():
+    """configurations outside the model's quantifier (its `hb` is an integer number of seconds): non-integer
+    heartbeat periods, judged by the oracle only"""
+    out = []
+    for h in (1.5, 2.5, 7.25):
+        H = int(h * 1000)
+        peers = [{"kind": "silent"}, {"kind": "answer", "answer": {"delay": 125, "flavour": "right"}},
+                 {"kind": "answer", "answer": {"delay": 2 * H - 1125, "flavour": "right"}},
+                 {"kind": "answer", "answer": {"delay": 2 * H + 125, "flavour": "right"}},
+                 {"kind": "answer", "answer": {"delay": 125, "flavour": "wrong"}},
+                 {"kind": "periodic", "period": H, "mtype": "0"}, {"kind": "periodic", "period": 2 * H - 125, "mtype": "D"},
+                 {"kind": "periodic", "period": H - 1125, "mtype": "0"},
+                 {"kind": "gap", "start": 250, "k": 2, "pace": H - H % 125, "then": "heartbeat"}]
+        for peer in peers:
+            for gaps, phase in (([1000], 500), ([1125], 125), ([1875], 1000)):
+                out.append(make_spec(h, peer, gaps, phase))
+    return out
+
+
 def finding_witnesses():
     out = []
     for f in C.load_findings(PROP):
@@ -681,7 +828,7 @@ def oracle(ctx, disagreements, broken):
     runs = list(getattr(ctx, "_c12_runs", []))
     impl = S.Impl()
     try:
-        extra = finding_witnesses() + [d["input"]["scenario"] for d in disagreements[:50]]
+        extra = finding_witnesses() + [d["input"]["scenario"] for d in disagreements[:50]] + config_specs()
         if not runs:
             extra += corpus_specs() + all_specs(ctx.rng, ctx.n(150, 600))
         if broken:
